@@ -76,5 +76,22 @@ template <typename T, typename U> constexpr auto same_value_plain(box<T> const& 
     return *l == *r;
 }
 
+// PTRCOUNT: the terminator is stored at index `count` instead of behind the characters actually copied
+template <typename Char> constexpr auto terminate_at_count(Char* dest, Char const* src, unsigned long count) -> Char*
+{
+    auto* tail = dest;
+    for (unsigned long i = 0; i < count && src[i] != Char(0); ++i) { tail[i] = src[i]; }
+    tail[count] = Char(0);
+    return dest;
+}
+template <typename Char> constexpr auto terminate_behind_copy(Char* dest, Char const* src, unsigned long count) -> Char*
+{
+    auto* tail = dest;
+    unsigned long i = 0;
+    for (; i < count && src[i] != Char(0); ++i) { tail[i] = src[i]; }
+    tail[i] = Char(0);
+    return dest;
+}
+
 } // namespace fixture
 #endif
